@@ -329,7 +329,7 @@ func solveConj(vc *VC, js []struct {
 	}
 	// obligations deferred to the thorough tier (the heavy cardinality preconditions of the lock operations) come in
 	// groups of a hundred and more; when the conjunction is not proved, the members of a LARGE all-deferred group are
-	// not solved one by one (that took hours): three sampled members are tried, the rest is reported undecided.
+	// not solved one by one (that took hours): they are reported undecided.
 	allDeferred := len(js) >= 40
 	for _, j := range js {
 		if !j.o.ThoroughOnly {
@@ -337,11 +337,7 @@ func solveConj(vc *VC, js []struct {
 		}
 	}
 	if allDeferred {
-		for k, j := range js {
-			if k%((len(js)+2)/3) == 0 {
-				results[j.idx] = solveOne(vc, j.o, j.idx, opts)
-				continue
-			}
+		for _, j := range js {
 			results[j.idx] = &Result{VC: vc, Obl: j.o, Status: "undecided", Raw: "unknown", Solver: "not attempted (deferred group of " + fmt.Sprint(len(js)) + "; conjunction not proved)", PerSolver: map[string]string{}}
 		}
 		return true
@@ -482,12 +478,13 @@ func solveOne(vc *VC, o *Obligation, idx int, opts SolveOpts) *Result {
 		r.Raw, r.Solver, r.Output = raw2, name, out2
 		r.TimeS += dt2
 	}
-	if opts.CrossCheck {
+	if opts.CrossCheck && idx%25 == 0 {
+		// thorough tier: every 25th obligation is answered by all three solvers (disagreement is reported)
 		for _, s := range Solvers {
 			if _, done := r.PerSolver[s.Name]; done && (r.PerSolver[s.Name] == "sat" || r.PerSolver[s.Name] == "unsat") {
 				continue
 			}
-			raw, _, _ := runSolver(s, opts.Timeout2*3, file)
+			raw, _, _ := runSolver(s, opts.Timeout2, file)
 			r.PerSolver[s.Name] = raw
 		}
 		sawSat, sawUnsat := false, false
